@@ -10,6 +10,7 @@ import Wharf.Model.Validate
 import Wharf.Model.Bsdiff
 import Wharf.Model.Lru
 import Wharf.Model.Patch
+import Wharf.Model.Rediff
 
 open Wharf Wharf.Util
 
@@ -201,6 +202,138 @@ def doDiffBuild (args : List String) : IO String := do
     | _ => return "bad-op"
   | _ => return "bad-op"
 
+/-- message file: one message per line: `H type idx` | `O type f i s hexdata|-` | `B t` | `C hexadd|- hexcopy|- seek eof(0/1)` -/
+def parseMsgLine (l : String) : Option Patch.WMsg :=
+  let hx (t : String) : List Byte := if t == "-" then [] else (hexToBytes t).toList
+  match l.trimAscii.toString.splitOn " " with
+  | ["H", t, i] => some [(Patch.fSyncHeaderType, .varint (parseInt t)), (Patch.fSyncHeaderFileIndex, .varint (parseInt i))]
+  | ["O", t, f, i, sp, d] =>
+    some [(Patch.fOpType, .varint (parseInt t)), (Patch.fOpFileIndex, .varint (parseInt f)),
+          (Patch.fOpBlockIndex, .varint (parseInt i)), (Patch.fOpBlockSpan, .varint (parseInt sp)),
+          (Patch.fOpData, .bytes (hx d))]
+  | ["B", t] => some [(Patch.fBsdiffTargetIndex, .varint (parseInt t))]
+  | ["C", a, c, sk, e] =>
+    some [(Patch.fCtrlAdd, .bytes (hx a)), (Patch.fCtrlCopy, .bytes (hx c)), (Patch.fCtrlSeek, .varint (parseInt sk)),
+          (Patch.fCtrlEof, .varint (parseInt e))]
+  | _ => none
+
+def readMsgs (path : String) : IO (List Patch.WMsg) := do
+  let txt ← IO.FS.readFile path
+  return (txt.splitOn "\n").filterMap parseMsgLine
+
+def showMsgAs (kind : String) (m : Patch.WMsg) : String :=
+  match kind with
+  | "H" => let h := Patch.asSyncHeader m; s!"H {h.type} {h.fileIndex}"
+  | "B" => s!"B {Patch.asBsdiffHeader m}"
+  | "C" => let c := Patch.asControl m
+           if c.eof then "CE" else s!"C {c.add.length} {fnvList c.add} {c.copy.length} {fnvList c.copy} {c.seek}"
+  | _ => let o := Patch.asSyncOp m
+         if o.type == 0 then s!"R {o.fileIndex} {o.blockIndex} {o.blockSpan}"
+         else if o.type == 1 then s!"D {o.data.length} {fnvList o.data}"
+         else if o.type == 2049 then "E" else s!"O? {o.type}"
+
+def csvNats (s : String) : List Nat := if s == "-" || s == "" then [] else (s.splitOn ",").map parseNat
+
+def showOutcomeRes : Outcome Patch.Res → String
+  | .panic site => s!"panic {site}"
+  | .err _ => "err"
+  | .ok r =>
+    let outs := r.out.map fun (i, b) => s!"{i}:{b.length}:{fnvList b}"
+    let calls := r.calls.map fun c => match c with
+      | .getWriter i => s!"w{i}"
+      | .transpose a b => s!"t{a}<{b}"
+    s!"ok touched={r.touched} out={",".intercalate outs} calls={",".intercalate calls} reads={",".intercalate (r.reads.map toString)}"
+
+/-- `patch <bs> <msgfile> <newsizes csv> <whitelist csv | *> <nOld> (path tok)*` -/
+def doPatch (args : List String) : IO String := do
+  match args with
+  | bsS :: mf :: newS :: wlS :: nOldS :: rest =>
+    let msgs ← readMsgs mf
+    let (oldFiles, _) ← readFiles (parseNat nOldS) rest
+    let olds := (oldFiles.map fun (_, b) => b.toList).toArray
+    let E : Patch.Env := { bs := parseNat bsS, oldSizes := olds.map (·.length), newSizes := (csvNats newS).toArray,
+                           pool := Patch.plainPool olds, whitelist := if wlS == "*" then none else some (csvNats wlS) }
+    return showOutcomeRes (Patch.patch E msgs)
+  | _ => return "bad-op"
+
+def showMappings : Outcome (List (Option (Nat × Int))) → String
+  | .panic site => s!"panic {site}"
+  | .err _ => "err"
+  | .ok ms => ",".intercalate (ms.map fun m => match m with | none => "-" | some (t, n) => s!"{t}:{n}")
+
+def readPathSizes : Nat → List String → List (String × Nat) × List String
+  | 0, rest => ([], rest)
+  | n + 1, p :: sz :: rest => let (xs, r) := readPathSizes n rest; ((p, parseNat sz) :: xs, r)
+  | _, rest => ([], rest)
+
+/-- `analyze <bs> <limit> <force 0/1> <msgfile> <nOld> (path size)* <nNew> (path size)*` -/
+def doAnalyze (args : List String) : IO String := do
+  match args with
+  | bsS :: limS :: fS :: mf :: nOldS :: rest =>
+    let msgs ← readMsgs mf
+    let (olds, rest) := readPathSizes (parseNat nOldS) rest
+    match rest with
+    | nNewS :: rest =>
+      let (news, _) := readPathSizes (parseNat nNewS) rest
+      let P : Rediff.Params := { bs := parseNat bsS, sizeLimit := parseNat limS, forceMapAll := fS == "1", partitions := 0, scanBlock := 131072 }
+      return showMappings (Rediff.analyze P (olds.map (·.1)).toArray (olds.map (·.2)).toArray news 0 msgs)
+    | _ => return "bad-op"
+  | _ => return "bad-op"
+
+/-- `optimize <bs> <limit> <force> <partitions> <msgfile> <nOld> (path tok)* <nNew> (path tok)*` : optimized message list -/
+def doOptimize (args : List String) : IO String := do
+  match args with
+  | bsS :: limS :: fS :: pS :: mf :: nOldS :: rest =>
+    let msgs ← readMsgs mf
+    let (oldFiles, rest) ← readFiles (parseNat nOldS) rest
+    match rest with
+    | nNewS :: rest =>
+      let (newFiles, _) ← readFiles (parseNat nNewS) rest
+      let P : Rediff.Params := { bs := parseNat bsS, sizeLimit := parseNat limS, forceMapAll := fS == "1", partitions := parseNat pS, scanBlock := 131072 }
+      let oldPaths := (oldFiles.map (·.1)).toArray
+      let oldSizes := (oldFiles.map (·.2.size)).toArray
+      let news := newFiles.map fun (p, b) => (p, b.size)
+      match Rediff.analyze P oldPaths oldSizes news 0 msgs with
+      | .panic site => return s!"panic {site}"
+      | .err _ => return "err"
+      | .ok maps =>
+        let oldArr := (oldFiles.map (·.2.data)).toArray
+        let newArr := (newFiles.map (·.2.data)).toArray
+        let differ := fun (t i : Nat) => Bsdiff.diffExec P.scanBlock P.partitions (oldArr.getD t #[]) (newArr.getD i #[])
+        match Rediff.optimize differ maps 0 msgs with
+        | .panic site => return s!"panic {site}"
+        | .err _ => return "err"
+        | .ok out =>
+          -- render with the series structure: header, then ops or bsdiff header + controls + sentinel
+          let rec render : List Patch.WMsg → Nat → List String → List String
+            | [], _, acc => acc.reverse
+            | m :: ms, st, acc =>
+              -- st: 0 expect header, 1 in rsync series, 2 expect bsdiff header, 3 in controls, 4 expect sentinel
+              if st == 0 then
+                let h := Patch.asSyncHeader m
+                render ms (if h.type == 1 then 2 else 1) (showMsgAs "H" m :: acc)
+              else if st == 1 then
+                render ms (if (Patch.asSyncOp m).type == 2049 then 0 else 1) (showMsgAs "O" m :: acc)
+              else if st == 2 then render ms 3 (showMsgAs "B" m :: acc)
+              else if st == 3 then render ms (if (Patch.asControl m).eof then 4 else 3) (showMsgAs "C" m :: acc)
+              else render ms 0 (showMsgAs "O" m :: acc)
+          return ";".intercalate (render out 0 [])
+    | _ => return "bad-op"
+  | _ => return "bad-op"
+
+/-- `hashinfo <bs> <sizes csv> <avail>`: outcome class of ReadSignature + ComputeHashInfo when `avail` hash
+    messages follow the container -/
+def doHashInfo (args : List String) : IO String := do
+  match args with
+  | [bsS, sizesS, availS] =>
+    let sizes := csvNats sizesS
+    let n := Validate.readSigCount (parseNat bsS) sizes (parseNat availS)
+    match Validate.hashGroups (parseNat bsS) sizes 0 n with
+    | .ok _ => return s!"ok {n}"
+    | .err _ => return s!"err {n}"
+    | .panic p => return s!"panic {p}"
+  | _ => return "bad-op"
+
 def dispatch (line : String) : IO String := do
   match line.trimAscii.toString.splitOn " " with
   | "c11" :: args => doC11 args
@@ -208,6 +341,10 @@ def dispatch (line : String) : IO String := do
   | "c18" :: args => doC18 args
   | "c12" :: args => doC12 args
   | "diffbuild" :: args => doDiffBuild args
+  | "patch" :: args => doPatch args
+  | "hashinfo" :: args => doHashInfo args
+  | "analyze" :: args => doAnalyze args
+  | "optimize" :: args => doOptimize args
   | "lru" :: args => doLru args
   | ["ping"] => return "pong"
   | _ => return "bad-op"
